@@ -8,7 +8,7 @@ LEVEL = 'exploration'
 RULE = ('case = (printable value: built-in trees whose leaves may be subclass instances, pretty_call objects and stdlib '
         'instances, with comment()/trailing_comment() wrappers; a set of 5-7 configurations (width, ribbon_width, indent): '
         'always (1,1,1), (200,200,8) and the default (79,71,4), plus configurations placed around the one-line length L of '
-        'the value and random ones in [1,200]x[1,200]x[1,8]). Exhaustive: the C01 small-tree alphabet (<= 3 nodes) and a '
+        'the value and random ones in [1,200]x[1,200]x[1,8]); sort_dict_keys, max_seq_len and depth are drawn per case and held fixed across its configurations). Exhaustive: the C01 small-tree alphabet (<= 3 nodes) and a '
         'fixed corpus of commented/stdlib/subclass values x a grid of 24 configurations; random: Hypothesis. Oracle: '
         'ast.dump(ast.parse("(" + out + ")")) is identical for all configurations of the value; every non-blank output '
         'line starts with a multiple of `indent` spaces. non-trivial = at least two configurations produced different '
@@ -53,9 +53,12 @@ def strategy(tier):
     w = S['width']
     cfg = st.one_of(st.tuples(w, w, st.integers(1, 8)).map(list),
                     st.tuples(st.just('L'), st.integers(-6, 12)).map(list))
+    opts = st.fixed_dictionaries({}, optional={'sort_dict_keys': st.booleans(), 'max_seq_len': st.sampled_from([1, 2, 3, 1000]),
+                                               'depth': st.sampled_from([1, 2, 3, None])})
     return st.fixed_dictionaries({
         'v': gens.any_value(S, comments=True),
         'cfgs': st.lists(cfg, min_size=2, max_size=4).map(lambda cs: [[1, 1, 1], [200, 200, 8], [79, 71, 4]] + cs),
+        'opts': st.one_of(st.just({}), opts),
     })
 
 
@@ -64,7 +67,8 @@ _ENV = {}
 
 def oracle(case):
     v = values.build(case['v'])
-    big = values.pp(v, width=10 ** 6, ribbon_width=10 ** 6)
+    opts = case.get('opts') or {}     # held fixed across the configurations of one case
+    big = values.pp(v, width=10 ** 6, ribbon_width=10 ** 6, **opts)
     L = len(big.text) if big.text and '\n' not in big.text else 60
     outs = []
     dumps = []
@@ -74,7 +78,7 @@ def oracle(case):
             cfg = {'width': w, 'ribbon_width': w, 'indent': 4}
         else:
             cfg = {'width': c[0], 'ribbon_width': c[1], 'indent': c[2]}
-        p = values.pp(v, **cfg)
+        p = values.pp(v, **cfg, **opts)
         if p.exc is not None:
             return core.viol('pformat-raised', '%r under %r' % (p.exc, cfg))
         try:
@@ -93,7 +97,7 @@ def oracle(case):
         if dumps[i] != dumps[0]:
             return core.viol('content-depends-on-layout', 'under %r\n%s\nunder %r\n%s' % (outs[0][0], outs[0][1][:600], outs[i][0], outs[i][1][:600]))
     texts = {t for _, t in outs}
-    labels = []
+    labels = ['opt:' + k for k in sorted(opts)]
     if case['v'][0] in ('cmt', 'tcmt'):
         labels.append('top-comment')
     return core.ok(len(texts) >= 2, labels)
